@@ -7,6 +7,8 @@ mod algorithm;
 pub use algorithm::Algorithm;
 mod congestion;
 pub use congestion::ArcCC;
+#[cfg(genmeta_gm_quic_verif)]
+pub use congestion::{VerifSentPacket, VerifSnapshot, VerifSpace};
 mod pacing;
 mod packets;
 mod rtt;
